@@ -602,3 +602,30 @@ def local_sig(body, name):
                     else:
                         out.add(k + (":" + rhs["op"] if k in ("binop", "unop") else ""))
     return sorted(out)
+
+
+def first_match_scan(fx, body):
+    """How `body` finds the FIRST position satisfying a test over an ascending range — `(a..=b).find(|x| test(x))`, or
+    `for x in a..=b { if test(x) { return Some(x) } } None`.  Returns None if neither form is found, else a dict:
+    form, test_calls (the calls the test makes, closure or loop body), first (True when the first hit is returned: no
+    rev/rfind/rposition/last, and in the loop form the hit is returned without going round the loop again)."""
+    backwards = bool(tree_calls(body, r"rfind|rposition|::rev$|Iterator>?::last$|DoubleEndedIterator"))
+    for c in body.calls_to(r"Iterator>?::find$"):
+        if re.match(r"^(new|Range::Range|RangeInclusive)\(", expr(body, c.args[0])) or "Range" in (c.targs[0] if c.targs else ""):
+            cbs = closure_bodies(fx, c)[-1:]
+            return {"form": "find", "test_calls": [x for cb in cbs for x in cb.calls()], "first": not backwards}
+    for c in body.calls_to(r"Iterator>?::next$"):
+        it = expr(body, c.args[0])
+        if not re.match(r"^into_iter\((new|Range::Range)\(", it):
+            continue
+        x = "next(%s)#Some.0" % it
+        inside = body.reachable(c.bb)
+        hits = [d for d in body.def_sites(0) if d[0] in inside and isinstance(d[3], dict) and d[3]["k"] == "agg" and d[3].get("variant") == "Some"
+                and expr(body, d[3]["ops"][0]) == x]
+        if not hits:
+            continue
+        again = any(c.bb in body.reachable(d[0]) and d[0] != c.bb for d in hits)
+        tests = [y for y in body.calls() if y.bb in inside and ("V1:next(%s)" % it) in guard_strs(body, y.bb)]
+        guarded = all(any(g.startswith("T:") for g in guard_strs(body, d[0]) if "next(" not in g or True) for d in hits)
+        return {"form": "loop", "test_calls": tests, "first": not backwards and not again and guarded}
+    return None
